@@ -219,6 +219,7 @@ def run(chk):
         meta.append((lay, mbins, ifm, sp))
     vals = C.eval_cases("C13e", IMPORTS, "", exprs, shard=60)
     dis = []
+    dict_meta = []
     for (lay, mbins, ifm, sp), v in zip(meta, vals):
         e, wd, bh, ns = v
         e = res_list(e)
@@ -229,6 +230,8 @@ def run(chk):
                 (x not in lay["breaks"]) or any(C.same_float(x, y) for y in e[1]) for x in impl_edges)))
         if not ok:
             dis.append(dict(what="edges", input=lay, impl=impl_edges, model=C.jsonable(e)))
+        if isinstance(lay["nbins"], dict):
+            dict_meta.append((lay, mbins, ifm, sp))
         if not isinstance(lay["nbins"], dict):
             for nm, mv in (("WD", res_list(wd)), ("BH", res_list(bh)), ("NS", ("Ok", ns))):
                 ib = pairs_of(getattr(mbins.bins, nm))
@@ -236,7 +239,25 @@ def run(chk):
                 if mvl is None or len(mvl) != len(ib) or not all(C.same_float(a, c) and C.same_float(b, d)
                                                                   for (a, b), (c, d) in zip(mvl, ib)):
                     dis.append(dict(what="carve " + nm, input=lay, impl=ib, model=C.jsonable(mv)))
-    chk.correspondence("edges / carve_WD / carve_BH / carve_NS vs MassBins.__init__", len(meta), dis)
+    # dict form: remnant bins built directly from the IFMR bounds
+    dexprs = []
+    for lay, mbins, ifm, sp in dict_meta:
+        nb = lay["nbins"]
+        dexprs.append("(dict_WD (O:=F_ops) %s %s %s %s %d, dict_BH (O:=F_ops) %s %s %s %s %d, dict_NS (O:=F_ops) %s (0x1.47ae147ae147bp-7))" % (
+            sp, C.fl(lay["breaks"][0]), C.fl(ifm.WD_mf.lower), C.fl(ifm.WD_mf.upper), nb["WD"],
+            sp, C.fl(lay["breaks"][-1]), C.fl(ifm.BH_mf.lower), C.fl(ifm.BH_mf.upper), nb["BH"], C.fl(ifm.NS_mf.lower)))
+    if dexprs:
+        dvals = C.eval_cases("C13d", IMPORTS, "", dexprs, shard=60)
+        for (lay, mbins, ifm, sp), v in zip(dict_meta, dvals):
+            for nm, mv in (("WD", res_list(v[0])), ("BH", res_list(v[1])), ("NS", ("Ok", v[2]))):
+                ib = pairs_of(getattr(mbins.bins, nm))
+                mvl = [(float(a), float(b)) for a, b in mv[1]] if mv[0] == "Ok" else None
+                okd = mvl is not None and len(mvl) == len(ib) and all(
+                    (C.close_float(a, c, 1e-12) and C.close_float(b, d, 1e-12)) if sp == "Log" else (C.same_float(a, c) and C.same_float(b, d))
+                    for (a, b), (c, d) in zip(mvl, ib))
+                if not okd:
+                    dis.append(dict(what="dict-form " + nm, input=lay, impl=ib, model=C.jsonable(mv)))
+    chk.correspondence("edges / carve_WD / carve_BH / carve_NS / dict_WD / dict_BH / dict_NS vs MassBins.__init__", len(meta) + len(dict_meta), dis)
     if meta:
         chk.samples.append(dict(layout=meta[0][0], impl_MS=pairs_of(meta[0][1].bins.MS)[:4]))
     # ---- T3 lookup + truncation ---------------------------------------
